@@ -10,8 +10,11 @@ pub mod c08;
 pub mod c09;
 pub mod c10;
 pub mod c11;
+pub mod c12;
+pub mod c13;
 pub mod c14;
 pub mod c16;
+pub mod c17;
 
 #[derive(Clone, Debug)]
 pub struct Ctx {
@@ -42,8 +45,12 @@ pub fn run(id: &str, ctx: &Ctx) -> i32 {
         "C09" => c09::run(ctx),
         "C10" => c10::run(ctx),
         "C11" => c11::run(ctx),
+        "C12" => c12::run(ctx),
+        "C13" => c13::run(ctx),
         "C14" => c14::run(ctx),
         "C16" => c16::run16(ctx),
+        "C17" => c17::run17(ctx),
+        "C18" => c17::run18(ctx),
         _ => {
             eprintln!("unknown property {id}");
             2
